@@ -92,11 +92,12 @@ def lag_play(m, rng, scheme, rules, k):
     rng.shuffle(ids)
     ld = rng.choice(sorted(ids))
     rng.setstate(st)
-    p = ClusterPlay(m, rng, scheme, n, rules, 0, leader=ld)
+    rot = n >= 5 and rng.random() < 0.5     # rotating leaders: the member that fell behind leads views of the suffix
+    p = ClusterPlay(m, rng, scheme, n, rules, 0, leader=None if rot else ld)
     for i in p.nodes:
         p.say(f"fetch {i} on")
     p.settle(rounds=rng.randrange(2, 8))
-    lag = rng.choice([i for i in p.nodes if i != ld])
+    lag = rng.choice([i for i in p.nodes if rot or i != ld])
     rest = [i for i in p.nodes if i != lag]
     for _ in range(rng.randrange(3, 12)):
         before = dict(p.view)
@@ -107,6 +108,21 @@ def lag_play(m, rng, scheme, rules, k):
         for a in rest:
             p.say(f"drop {a} {lag}")
             p.say(f"drop {lag} {a}")
+    if rot and rng.random() < 0.7:
+        # the member that fell behind leads the FIRST view after the partition heals and learns the high QC from
+        # the others' timeout messages only: as proposer it has to fetch the blocks it missed
+        for _ in range(n + 1):
+            if p.leader(max(p.view[i] for i in rest) + 1) == lag:
+                break
+            before = dict(p.view)
+            p.settle(rest, rounds=4)
+            if all(p.view[i] == before[i] for i in rest):
+                p.timeouts(rest)
+                p.settle(rest, rounds=4)
+            for a in rest:
+                p.say(f"drop {a} {lag}")
+                p.say(f"drop {lag} {a}")
+        p.timeouts(rest)
     sync_suffix(p, list(p.nodes), maxrounds=6 if rules != "fasthotstuff" else 4)
     for i in p.nodes:
         p.say(f"@{i} dump")
